@@ -373,7 +373,8 @@ namespace SharedHeap
 
 /-- **Non-interference.**  Take any interleaving of the buffer operations of any number of
     connections on one shared pool.  If it is fault-free — no connection touches a buffer it does not
-    own or reads bytes it did not write (C11's conclusion), and the allocator never hands out a live
+    own (what C11 is about), none reads bytes it did not write (`staleRead`: established by no theorem of
+    C11; it rests on C09's differential and `c10-foreign`), and the allocator never hands out a live
     buffer (C20) — then for every connection `a`: its own operations alone, run from the initial heap,
     are fault-free too, and hand exactly the same buffers, call by call, to `a`'s `conn.Write` — the
     `pieces` of the pipeline model (a).  The projection of the interleaved run to `a` is `a`'s solo
